@@ -11,6 +11,8 @@ file read the source with the same patterns).  Extracted:
     the `if`s of its `[` arm, in order (the class walk the model's `classGo` transliterates);
   * `handle_unsubscribe` / `handle_punsubscribe` (src/network/server.rs): do they confirm with the
     remaining count when the manager returned no result (client holds nothing) ?
+  * `process_connection` / the CLIENT arm (src/network/server.rs): are subscriptions released at the moment a
+    connection is marked as closing?  `process_frame`: is there a subscriber-context gate?
   * `Server::cleanup_connections` (src/network/server.rs): does it still skip closing
     connections for which `pubsub.is_subscribed(id)` (a dead subscriber stays subscribed) ?
 """
@@ -19,7 +21,8 @@ import re
 
 def facts(src, strip_comments, fn_body):
     """dict(dedup: bool|None, glob_arms: list|None, keeps_dead: bool|None); None = not recognised"""
-    out = {"dedup": None, "glob_arms": None, "keeps_dead": None, "acks_when_idle": None, "matcher_is_engine": None, "class_conds": None}
+    out = {"dedup": None, "glob_arms": None, "keeps_dead": None, "acks_when_idle": None, "matcher_is_engine": None, "class_conds": None,
+           "releases_at_close": None, "subscriber_gate": None}
     ps = strip_comments(src("pubsub.rs"))
     body = fn_body(ps, "publish")
     if body is not None and "receivers.push" in body:
@@ -68,6 +71,21 @@ def facts(src, strip_comments, fn_body):
                            and re.search(r"get_subscription_info\s*\(", hb)))
     if None not in fb and len(set(fb)) == 1:
         out["acks_when_idle"] = fb[0]
+    pc = fn_body(sv, "process_connection")
+    if pc is not None and "should_close" in pc:
+        # subscriptions released at the moment a connection is marked as closing: on the QUIT / protocol-error path
+        # (`if should_close { … self.pubsub.unsubscribe_all(id) … }` in process_connection) and on the CLIENT KILL
+        # path (`self.release_closing_subscribers()` after handle_client, and that function exists)
+        a = bool(re.search(r"if\s+should_close\s*\{\s*let\s+_\s*=\s*self\s*\.\s*pubsub\s*\.\s*unsubscribe_all\s*\(\s*id\s*\)", pc))
+        b = bool(re.search(r"handle_client\s*\([^;]*?\)\s*\}\s*;\s*self\s*\.\s*release_closing_subscribers\s*\(\s*\)", sv, re.S))
+        rc = fn_body(sv, "release_closing_subscribers")
+        c = rc is not None and "is_closing" in rc and bool(re.search(r"pubsub\s*\.\s*unsubscribe_all\s*\(", rc))
+        out["releases_at_close"] = a and b and c
+    pf = fn_body(sv, "process_frame")
+    if pf is not None and "NOAUTH" in pf:
+        out["subscriber_gate"] = bool(re.search(
+            r'self\s*\.\s*pubsub\s*\.\s*is_subscribed\s*\(\s*conn_id\s*\)\s*&&\s*!\s*matches!\s*\(\s*command\s*\.\s*as_str\s*\(\s*\)\s*,\s*'
+            r'"SUBSCRIBE"\s*\|\s*"UNSUBSCRIBE"\s*\|\s*"PSUBSCRIBE"\s*\|\s*"PUNSUBSCRIBE"\s*\|\s*"PING"\s*\|\s*"QUIT"\s*\)', pf))
     cb = fn_body(sv, "cleanup_connections")
     if cb is not None and "is_closing" in cb:
         out["keeps_dead"] = bool(re.search(r"pubsub\s*\.\s*is_subscribed\s*\(", cb))
@@ -114,5 +132,17 @@ def generate(src, strip_comments, fn_body, header):
         lines.append("/-- `handle_unsubscribe` / `handle_punsubscribe` write confirmations themselves when the manager returned")
         lines.append("    no result (`if results.is_empty()`: one per name given or one with a nil name, with the remaining count). -/")
         lines.append("def pubsubAcksWhenIdle : Bool := %s" % ("true" if f["acks_when_idle"] else "false"))
+    if f["releases_at_close"] is None:
+        lines.append('def pubsubReleasesAtClose : Bool := extraction_failed "Server::process_connection (should_close) not recognised in src/network/server.rs"')
+    else:
+        lines.append("/-- subscriptions are released at the moment a connection is marked as closing (QUIT / protocol error in")
+        lines.append("    process_connection, CLIENT KILL via release_closing_subscribers) and not only when it is removed -/")
+        lines.append("def pubsubReleasesAtClose : Bool := %s" % ("true" if f["releases_at_close"] else "false"))
+    if f["subscriber_gate"] is None:
+        lines.append('def pubsubSubscriberGate : Bool := extraction_failed "Server::process_frame (authentication gate) not recognised in src/network/server.rs"')
+    else:
+        lines.append("/-- subscriber context: process_frame refuses everything but (P)SUBSCRIBE, (P)UNSUBSCRIBE, PING, QUIT from a")
+        lines.append("    connection for which pubsub.is_subscribed -/")
+        lines.append("def pubsubSubscriberGate : Bool := %s" % ("true" if f["subscriber_gate"] else "false"))
     lines += ["", "end Ferrous.Gen", ""]
     return "\n".join(lines)
